@@ -1,6 +1,8 @@
 import FV.Drv.Common
 import FV.Model.Global
 import FV.Model.Registers
+import FV.Model.SatProc
+import FV.Drv.PB
 /- op table for the process-state model (C20): `F eps <kDie> <kNet> <inf> <n> (die 2 w h | net k d1…dk | alloc 2 w h)*`
    → tolerance state after that history from a fresh process: `none` or `<dist> <area>`. -/
 namespace FV.Drv
@@ -69,5 +71,68 @@ def regsOp (args : List String) : Option String :=
     let (s, os) := runRegs LegalRegs.init ops
     let e := match s.eps with | some t => toString t | none => "none"
     " ".intercalate (os.map showRegOut) ++ s!" | eps={e} debug={s.debug} names={s.names.length}"
+
+end FV.Drv
+
+namespace FV.Drv
+open FV FV.Proc FV.PB FV.Sat
+
+/-- a process operation on the wire (same syntax as `P hist` of drv_pb):
+    `nv i name | cl i lits | im i lits lit | qu i lits | he i k lits | pb i dec OP exprA exprB | sv i U | sv i M pairs`;
+    the solver's answer is given by variable NAME and translated with the manager's own table when the step runs. -/
+inductive WOp where
+  | op (o : SatOp)
+  | sv (i : Nat) (ans : Option (List (Var × Bool)))
+  | bad (i : Nat)                       -- an inequality whose operator string `Ineq.__init__` rejects: nothing happens
+
+def pWOp : P WOp := do
+  let t ← tok
+  let i ← pNat
+  match t with
+  | "nv" => do let v ← pVar; pure (.op (.newvar i v))
+  | "cl" => do let c ← pList pLit; pure (.op (.post i (.clause c)))
+  | "im" => do let l ← pList pLit; let x ← pLit; pure (.op (.post i (.imply l x)))
+  | "qu" => do let l ← pList pLit; pure (.op (.post i (.amoQ l)))
+  | "he" => do let k ← pInt; let l ← pList pLit; pure (.op (.post i (.amoH k l)))
+  | "pb" => do
+      let d ← pBool; let o ← tok; let a ← pExprV; let b ← pExprV
+      match Ineq.makeStr a b o with
+      | some q => pure (.op (.post i (.pb q d)))
+      | none => pure (.bad i)
+  | "sv" => do
+      let k ← tok
+      match k with
+      | "U" => pure (.sv i none)
+      | "M" => do let l ← pList (do let v ← pVar; let b ← pBool; pure (v, b)); pure (.sv i (some l))
+      | _ => failure
+  | _ => failure
+
+def toSatOp (w : SatProc) : WOp → Option SatOp
+  | .op o => some o
+  | .bad _ => none
+  | .sv i ans =>
+    match w.mgrs[i]? with
+    | none => some (.solve i none)
+    | some m =>
+      some (.solve i (ans.map fun l => l.filterMap fun (v, b) => (m.index v).map fun k => if b then (k : Int) else -(k : Int)))
+
+def showMgrShort (m : Mgr) : String :=
+  s!"{m.auxcount} {m.vars.length}" ++ String.join (m.vars.map fun v => " " ++ nameOfVar v)
+  ++ s!" {m.clauses.length}" ++ String.join (m.clauses.map fun c => " " ++ showClause c)
+
+/-- `F satproc <nmgr> <nops> op…` → verdict bits, then per manager `<encodable own constraints> <mgr>`, then the store.
+    Executes `FV.Proc.SatProc.run` (the object of `C20.sat_process_exact`). -/
+def satprocOp (args : List String) : Option String :=
+  (runP (do let nm ← pNat; let ops ← pList pWOp; pure (nm, ops)) args).map fun (nm, wops) =>
+    let (w, bits, sops) := wops.foldl (fun (acc : SatProc × List String × List SatOp) wo =>
+        let (w, bits, sops) := acc
+        match toSatOp w wo with
+        | none => (w, "x" :: bits, sops)
+        | some o => let r := w.step o; (r.1, b01 r.2 :: bits, o :: sops)) (SatProc.init nm, [], [])
+    let sops := sops.reverse
+    "".intercalate bits.reverse
+      ++ String.join ((List.range nm).map fun i =>
+          s!" | {(ownPosts i sops).length} " ++ showMgrShort (w.mgrs.getD i {}))
+      ++ s!" | {w.store.memory.length}" ++ String.join (w.store.memory.map fun n => " " ++ showNode n)
 
 end FV.Drv
